@@ -175,7 +175,9 @@ impl Run {
         }
         #[allow(clippy::eq_op)]
         if decoded != decoded { *self.dist.entry("workbook_holds_nan".to_string()).or_insert(0) += 1; }
-        let loaded = catch_unwind(AssertUnwindSafe(|| Model::from_bytes(&bytes, "en")));
+        // the language is not part of the stored workbook: load with the live model's
+        let lang: &'static str = ["en", "de", "es", "fr", "it"].iter().copied().find(|l| *l == um.get_model().get_language()).unwrap_or("en");
+        let loaded = catch_unwind(AssertUnwindSafe(|| Model::from_bytes(&bytes, lang)));
         let mut m2 = match loaded {
             Ok(Ok(m)) => m,
             Ok(Err(e)) => { self.or.fail("load_fails", replay.clone(), format!("from_bytes(to_bytes) = Err({e})")); return false; }
@@ -267,9 +269,25 @@ impl Run {
                 ok = false;
             }
         }
+        // (4b) what the live model displays for a formula cell = what the reloaded model displays (same language / locale)
+        if classes.is_empty() {
+            let m1 = um.get_model();
+            'outer: for (si, ws) in m1.workbook.worksheets.iter().enumerate() {
+                for (r, row) in &ws.sheet_data { for (c, cell) in row {
+                    if cell.get_formula().is_none() { continue; }
+                    self.or.checked += 1;
+                    let (d1, d2) = (m1.get_localized_cell_content(si as u32, *r, *c), m2.get_localized_cell_content(si as u32, *r, *c));
+                    if d1 != d2 {
+                        self.or.fail("display_differs_after_reload", replay.clone(), format!("sheet {si} R{r}C{c}: live model shows {d1:?}, reloaded model shows {d2:?}"));
+                        ok = false;
+                        break 'outer;
+                    }
+                } }
+            }
+        }
         // (5) a second save / load is the identity
         self.or.checked += 1;
-        match Model::from_bytes(&m2.to_bytes(), "en") {
+        match Model::from_bytes(&m2.to_bytes(), lang) {
             Ok(m3) => {
                 let same_trees = m3.parsed_formulas.len() == m2.parsed_formulas.len()
                     && m3.parsed_formulas.iter().zip(m2.parsed_formulas.iter()).all(|(a, b2)| a.len() == b2.len() && a.iter().zip(b2.iter()).all(|(x, y)| x.0 == y.0));
@@ -398,6 +416,52 @@ fn main() {
         let r: ironcalc_base::cf_types::CfRuleInput = serde_json::from_str("{\"type\":\"Formula\",\"formula\":\"A1>2\",\"format\":{\"font\":null,\"fill\":null,\"border\":null,\"num_fmt\":null,\"alignment\":null},\"stop_if_true\":true}").unwrap();
         let _ = um.add_conditional_formatting(1, "A1:A6", r);
         run.check_state(&mut um, "fixed", &json!({"ops": ["seed workbook (A3 = A1+A2, Sheet2!A1 = Sheet1!A3*2)", "Sheet1!A2 := =SEQUENCE(2,2)", "conditional format on Sheet2!A1:A6 with formula A1>2"]}));
+    }
+    // (b0) inputs that set_user_input NORMALISES before storing: missing closing parentheses (one is repaired),
+    // leading '+' / '-', lower-case function names, and — in a comma-decimal locale / other language —
+    // localized names and separators. What the live model computes and displays must be what the reloaded one does.
+    let normalised_en: [&str; 34] = [
+        "=SUM(B1:B4", "=SUM(A1:A3", "=SUM(A1,MAX(B1,2)", "=SUM(A1,MAX(B1,2", "=(1+2", "=((1+2)*3", "=((1+2", "=IF(A1>1,SUM(A1:A2,ABS(-1))", "=IF(A1>1,SUM(A1:A2,ABS(-1)",
+        "=IF(A1>1,SUM(A1:A2,ABS(-1", "=1+SUM(A1:A3", "=2*(A1+SUM(A1:A2", "=2*(A1+SUM(A1:A2)", "=ROUND(A1/3,2", "=\"a\"&LEFT(\"bcd\",2", "=-(A1+1", "=LAMBDA(x,x+1)(2", "=LET(a,1,a+SUM(A1:A2",
+        "=SUM({1,2;3,4}", "=SUM(A1:A2)%+ABS(-2", "+A1+1", "-A1", "+SUM(A1:A2)", "-SUM(A1:A2", "+1", "-1", "+\"a\"", "=sum(a1:a2)", "=if(a1>1,\"y\",\"n\")", "=Sum(A1,max(b1,2", "=true", "=sheet1!a1+1", "-sum(a1", "=SUM(A1:A2))",
+    ];
+    for f in normalised_en.iter() {
+        let mut um = fresh();
+        if catch_unwind(AssertUnwindSafe(|| um.set_user_input(0, 3, 3, f))).is_err() { continue; }
+        run.check_state(&mut um, "normalised", &json!({"input": f, "language": "en", "locale": "en"}));
+    }
+    let normalised_loc: [(&str, &str, &str); 16] = [
+        ("de", "de", "=SUMME(1,5;A1)"), ("de", "de", "=SUMME(A1;2,5"), ("de", "de", "=1,5*2"), ("de", "de", "=WENN(A1>1;\"a\";\"b\""), ("de", "de", "=summe(a1:a2"), ("de", "de", "+A1+0,5"),
+        ("de", "en", "=SUMME(1.5,A1"), ("en", "de", "=SUM(1,5;A1"), ("fr", "fr", "=SOMME(A1;2,5"), ("fr", "fr", "=SI(A1>1;\"a\";\"b\")"), ("es", "es", "=SUMA(A1;0,5"), ("it", "it", "=SOMMA(A1;MAX(A2;0,5"),
+        ("de", "de", "=SUM(A1,2)"), ("fr", "en", "=TRIM(\" x \""), ("fr", "fr", "=SUPPRESPACE(\" x \""), ("es", "de", "=SI(A1>1;VERDADERO;FALSO"),
+    ];
+    for (lang, loc, f) in normalised_loc.iter() {
+        let mut um = match UserModel::new_empty("norm", loc, "UTC", lang) { Ok(m) => m, Err(_) => continue };
+        let _ = um.set_user_input(0, 1, 1, "10");
+        let _ = um.set_user_input(0, 2, 1, "20");
+        if catch_unwind(AssertUnwindSafe(|| um.set_user_input(0, 3, 3, f))).is_err() { continue; }
+        run.check_state(&mut um, "normalised", &json!({"input": f, "language": lang, "locale": loc}));
+    }
+    // ... and inside random histories of such inputs on one workbook
+    for k in 0..(if a.thorough { 200u64 } else { 20u64 }) {
+        let mut r = Rng::new(a.seed.wrapping_mul(7_000_003).wrapping_add(k));
+        let mut um = fresh();
+        let mut log = vec![];
+        let g = FGen { sheets: vec!["Sheet1".into(), "Sheet2".into()], names: vec![], max_row: 6, max_col: 3, long_numbers: false, errors: false, arrays: k % 2 == 0, spills: false, upper_user_fn: false };
+        for _ in 0..8 {
+            // a generated formula with 1 - 3 closing parentheses dropped from its end, a leading sign instead of '=', or lower-cased
+            let full = g.formula(&mut r);
+            let f = match r.below(5) {
+                0 | 1 => { let mut t = full.clone(); let mut n = 1 + r.below(3); while n > 0 && t.ends_with(')') { t.pop(); n -= 1; } t }
+                2 => format!("{}{}", r.pick(&["+", "-"]), &full[1..]),
+                3 => full.to_lowercase(),
+                _ => full.clone(),
+            };
+            let (row, col) = (r.range(7, 12) as i32, r.range(1, 5) as i32);
+            log.push(format!("input(0,{row},{col},{f:?})"));
+            if catch_unwind(AssertUnwindSafe(|| um.set_user_input(0, row, col, &f))).is_err() { break; }
+            if !run.check_state(&mut um, "normalised_history", &json!({"history": k, "ops": log})) { break; }
+        }
     }
     // (b) fixed pool, one formula per fresh workbook
     for f in FIXED_POOL {
